@@ -346,6 +346,14 @@ Fixpoint nodup_by {A} (eqb : A -> A -> bool) (l : list A) : bool :=
 (* no diagnostic twice in the list of one file *)
 Definition prop_C18_list (l : list odiag) : bool := nodup_by odiag_same l.
 
+(* Validate() called again on the same pipeline (no GenerateGraph in between): "no diagnostic is
+   reported twice" holds for the list of EVERY call, and a pipeline is a snapshot of the sources, so
+   every later call reports what the first one did - the same diagnostics, as a multiset (their
+   order follows Go map iteration) *)
+Definition prop_C18_rounds (first : list odiag) (later : list (list odiag)) : bool :=
+  forallb (fun r => mset_eqb odiag_same first r) later.
+Definition prop_C18_rounds_nodup (later : list (list odiag)) : bool := forallb prop_C18_list later.
+
 (* no diagnostic line twice in the error text: the lines that start with a tab and a blank *)
 Definition diag_lines (text : str) : list str :=
   filter (fun l => has_prefix [x09; x20] l) (split_on x0a text).
@@ -400,3 +408,10 @@ Definition demo_tree_two_voids : list entity :=
         [mk_rd "receiver-return-values-invalid-signature" "Expected method to return an error or a value and error tuple but found void" EError 0 0] []]].
 
 Definition demo_cpos : cpos := {| c_line := 12; c_col := 10; c_text := s "// @Method(FETCH) see" |}.
+
+(* two diagnostics of one receiver as the check records them *)
+Definition demo_od (c : nat) (col : N) (m : string) : odiag :=
+  {| od_code := c; od_sev := 2; od_range := {| g_sl := 21; g_sc := col; g_el := 21; g_ec := (col + 3)%N |};
+     od_msg := s m; od_file_ok := true; od_nlines := 40; od_len_sl := 30; od_len_el := 30;
+     od_region := {| g_sl := 20; g_sc := 0; g_el := 23; g_ec := 30 |}; od_value := None; od_verb := None |}.
+Definition demo_round : list odiag := [demo_od 3 13 "status code '299'"; demo_od 24 10 "route conflict"].
